@@ -307,6 +307,47 @@ ReachFrom(h, todo, seen) ==
 Reach(h, root) == ReachFrom(h, {root}, {})
 
 (***************************************************************************)
+(* Tree-level removal (composed.py:99-109,153-157 remove_node; 162-187      *)
+(* filter_nodes, the routine merging uses to drop what a `!del` removes).   *)
+(***************************************************************************)
+\* one child removed by name, the way its container type does it (list.py:83-85 / dict.py:76-78)
+RemoveChildOf(h, id, name) == IF h[id].k = "l" THEN LDel(h, id, name) ELSE DDel(h, id, name)
+
+\* root.ayns.remove_node(*path_of_t, name): get_node(.., incomplete=None) asks has_child (the child map) and then
+\* get_child per component; a missing node is not an error (returns None, nothing changes); a name the child map has
+\* but get_child cannot deliver trips the assertion; otherwise parent.ayns.remove_child(name)
+RemoveNode(h, t, name) ==
+    IF ~HasChild(h, t, name) THEN Ok(h)
+    ELSE IF GetChild(h, t, name) = 0 THEN Fail(h, "AssertionError")
+    ELSE RemoveChildOf(h, t, name)
+
+\* the conditions the harness hands to filter_nodes: a container never satisfies them (it stays iff something below it
+\* stays), a scalar node with payload v does iff KeepS(c, v)
+KeepS(c, v) == CASE c = 0 -> v % 2 = 0 [] c = 1 -> v % 2 = 1 [] c = 2 -> FALSE [] OTHER -> v >= 10
+
+\* filter_nodes(condition): children in child-map order, containers filtered first (depth first), the names to delete
+\* collected and removed afterwards in REVERSE order (so that list positions stay valid); an exception leaves the
+\* heap as it is at that point
+RECURSIVE Filter(_, _, _)
+RECURSIVE FilterKids(_, _, _, _, _)
+RECURSIVE RemoveAll(_, _, _, _)
+FilterKids(h, id, c, j, todel) ==
+    IF j > Len(h[id].cm) THEN [h |-> h, err |-> "", todel |-> todel]
+    ELSE LET nm == h[id].cm[j][1]
+             ch == h[id].cm[j][2]
+         IN IF IsCont(h, ch)
+            THEN LET r == Filter(h, ch, c)
+                 IN IF r.err # "" THEN [h |-> r.h, err |-> r.err, todel |-> <<>>]
+                    ELSE FilterKids(r.h, id, c, j + 1, IF Len(r.h[ch].cm) > 0 THEN todel ELSE Append(todel, nm))
+            ELSE FilterKids(h, id, c, j + 1, IF h[ch].k = "s" /\ KeepS(c, h[ch].v) THEN todel ELSE Append(todel, nm))
+RemoveAll(h, id, todel, j) ==
+    IF j = 0 THEN Ok(h)
+    ELSE LET r == RemoveChildOf(h, id, todel[j]) IN IF r.err # "" THEN r ELSE RemoveAll(r.h, id, todel, j - 1)
+Filter(h, id, c) ==
+    LET k == FilterKids(h, id, c, 1, <<>>)
+    IN IF k.err # "" THEN Fail(k.h, k.err) ELSE RemoveAll(k.h, id, k.todel, Len(k.todel))
+
+(***************************************************************************)
 (* Evaluation order (dict.py:117-119, list.py:157-159, eval_context.py):    *)
 (* children are evaluated in child-map order; the result is rendered as a   *)
 (* token sequence (strings only).  For a node evaluated under a path of     *)
@@ -430,9 +471,13 @@ Apply(h, root, op) ==
          [] op.op = "d.set_child"    -> DSet(h, t, op.key, op.vals[1])           \* dict.py:72-74
          [] op.op = "d.remove_child" -> DDel(h, t, op.key)                       \* dict.py:76-78
          [] op.op = "d.rename_child" -> Rename(h, t, op.key, op.key2)
+         [] op.op = "l.remove_node"  -> RemoveNode(h, t, op.i)                   \* composed.py:153-157 (through the root)
+         [] op.op = "d.remove_node"  -> RemoveNode(h, t, op.key)
+         [] op.op = "l.filter"       -> Filter(h, t, op.i)                       \* composed.py:162-187
+         [] op.op = "d.filter"       -> Filter(h, t, op.i)
 
 OpKind(op) == IF op.op \in {"l.setitem", "l.delitem", "l.append", "l.insert", "l.extend", "l.remove", "l.pop",
-                            "l.clear", "l.set_child", "l.remove_child", "l.rename_child"} THEN "l" ELSE "d"
+                            "l.clear", "l.set_child", "l.remove_child", "l.rename_child", "l.remove_node", "l.filter"} THEN "l" ELSE "d"
 \* an operation is applicable when its target exists and is a container of the right type
 Applicable(h, root, op) == LET t == Lookup(h, root, op.t, op.tk) IN t # 0 /\ h[t].k = OpKind(op)
 
